@@ -476,12 +476,12 @@ Definition wf_op (strict : bool) (o : op) : bool :=
   end.
 
 (* attachments: the id of every add is not in the store at that moment (rename mode is C39's) *)
-Fixpoint fresh_adds (att : atts) (h : list op) (s : store) : bool :=
+Fixpoint fresh_adds (h : list op) (s : store) : bool :=
   match h with
   | [] => true
   | o :: r =>
     (match o with AAdd id _ => negb (m_mem id (s_att s)) | _ => true end)
-    && fresh_adds att r (astep s o)
+    && fresh_adds r (astep s o)
   end.
 
 (* ------------------------------------------------ wire helpers for the glue *)
